@@ -434,7 +434,7 @@ SvcName(i) == "svc" \o ToString(i)
 
 AddService ==
   /\ Len(world.services) < 3
-  /\ \E ns \in Pick({"ns1", "ns2", "ns3"}), sel \in Pick({NoLabels, L1("app", "a"), L1("app", "b"), L1("tier", "b"), L1("tier", "c")}),
+  /\ \E ns \in Pick({"ns1", "ns2", "ns3"}), sel \in Pick({L1("app", "a"), L1("app", "b"), L1("tier", "b"), L1("tier", "c"), L2("app", "a", "tier", "b")}),
         ps \in Pick(SvcPortsCat), selNil \in Pick({FALSE, FALSE, FALSE, TRUE}) :
        LET i == Len(world.services) + 1
        IN Step("AddService", <<i>>,
